@@ -100,6 +100,7 @@ def gen_main(outcome):
     a("    if (line[len-1] == '\\n') line[--len] = 0;")
     a('    if (!strcmp(line, "start")) {')
     a("      memset(&S, 0xAA, sizeof S);")
+    a('      printf("begin\\n");')
     a("      int r = p_start(&S);")
     if not glob:
         for h in hooks:
